@@ -89,11 +89,12 @@ def run(ck):
     ck.rule = ("translator validation: 5 kernels x random float64 points; oracle: catalogues of 1-5 mixed sources (all 7 types), 3 renderers, negative/zero flux, fractions at 0 and 1, "
                "suffixes, reversed order")
     ck.trusted += ["Coq 8.16.1 kernel; Interval; Reals axioms", "translator units Formulas, RenderGlue, Amps (validated numerically each run for Formulas)",
-                   "additivity of conv_fft / conv_img (linearity of rfft2/irfft2 and of multiplication by PSF_fft) is a hypothesis of the scene theorems (discharged for the DFT model in C01/C03; "
-                   "exercised here by the implementation oracle)", "lgamma abstract (any function)"]
+                   "additivity of conv_fft / conv_img is a hypothesis of the abstract scene theorems; it is discharged for the circular-convolution model (C08_convolution_additive / _linear, "
+                   "Proofs/ConvSymmetry.v) which C03 proves is what irfft2(rfft2 . * PSF_fft) computes; the tie of that model to jnp.fft is numerical (C01, C03)", "lgamma abstract (any function)"]
     ck.explanation = ("Proved for all real scale factors and parameters: each kernel (analytic Sersic, Fourier Gaussians, real-space Gaussians, Fourier point source, interpolated amplitudes, 1-D profile) "
                       "is linear in flux/amplitude; composite profiles are exactly two components with fractions f and 1-f at the same centre and angle; exp/dev are Sersic n=1/4; for any image "
-                      "algebra with additive convolution operators the scene equals the sum of its individually rendered sources and a composite the sum of its components.")
+                      "algebra with additive convolution operators the scene equals the sum of its individually rendered sources and a composite the sum of its components; circular convolution with the PSF is additive and homogeneous in "
+                      "the scene for every frame size.")
     if ck.broken():
         if oracle_bad:
             c, r = oracle_bad[0]
